@@ -171,6 +171,24 @@ def jobs(tier):
             out.append({"prop": PROP, "cfg": cfg, "order": "asc", "base": "B1", "scripts": st,
                         "opts": {"outside": OUTSIDE, "translate": "skip"}, "outside_only": _outside_only(st),
                         "mode": {"k": None, "cap": 1500, "depth": 60, "audit": 0}})
+    # mixed case modes: a sibling folder of the case-SENSITIVE root whose name differs from the root only by case is outside
+    for cfg, cs_side in (("lci", 1), ("rci", 0), ("plci", 1)):
+        import copy
+        outside = copy.deepcopy(OUTSIDE)
+        sib = ROOTS[cs_side].upper()
+        outside[str(cs_side)] += [["mkdir", sib], ["create", sib + "/secret", "OUT-CASE-SIB"], ["mkdir", sib + "/sub"],
+                                  ["create", sib + "/sub/deep", "OUT-CASE-DEEP"]]
+        for sc in ([[], []], [[["create", "c"]], []], [[], [["create", "c"]]],
+                   [[["write", sib + "/secret"]] if cs_side == 0 else [], [["write", sib + "/secret"]] if cs_side == 1 else []],
+                   [[["rename", sib + "/secret", "in"]] if cs_side == 0 else [], [["rename", sib + "/secret", "in"]] if cs_side == 1 else []],
+                   [[["rename", "a", sib + "/a"]] if cs_side == 0 else [], [["rename", "a", sib + "/a"]] if cs_side == 1 else []]):
+            st = A.stamp(sc)
+            oo = _outside_only(st)
+            moved_in = any(op[0] == "rename" and op[1] == sib + "/secret" for s_ in st for op in s_)
+            oo[str(cs_side)] = oo.get(str(cs_side), []) + (["OUT-CASE-DEEP"] if moved_in else ["OUT-CASE-SIB", "OUT-CASE-DEEP"])
+            out.append({"prop": PROP, "cfg": cfg, "order": "asc", "base": "B1", "scripts": st,
+                        "opts": {"outside": outside, "check_base": True}, "outside_only": oo,
+                        "mode": {"k": None, "cap": 1500, "depth": 60, "audit": 0}})
     return out
 
 
